@@ -355,7 +355,8 @@ def poll_probe(r, cfg, d, l0):
             if not any(lo <= s.offset and s.offset + (nb + 1) // 2 - 1 <= hi for lo, hi in windows):
                 # a value is reported although this poll fetched none of its registers (known: the two Apparent4 sensors
                 # at the end of the MPPT window, KNOWN_FINDINGS)
-                if not any(lo <= s.offset <= hi for lo, hi in windows):
+                from .checks.c14 import _known as _k14
+                if not any(lo <= s.offset <= hi for lo, hi in windows) and ('C14', f'sensor-inside-window/{fam}/{s.id_}') not in _k14():
                     out.append(('C14', f'reported-only-if-fetched/{fam}', f'{s.id_} @{s.offset} = {d[s.id_]!r} is in the result, the poll fetched {windows}'))
                     out.append(('C12', f'documented-reading/{tname(s)}/not-fetched-by-this-poll', f'{s.id_} @{s.offset} = {d[s.id_]!r} is in the result, '
                                                                                                f'the poll fetched none of its registers'))
